@@ -8,13 +8,14 @@
    handles the environment holds by having written the counter field), the handle slots [hs]
    and [pend], the handles in local variables of the running function.  [handles s] is the
    multiset (list) of ALL handles, [held s o] the number of handles on object [o].  [mrun init ops]
-   runs a history of the 26 operations (addref, unref, clone, assignment through conversion,
-   traits init/fini, reference array copy, array clone/clear, detach, rawdata array member, reply
-   defer, forced counters, reference<T> set_instance/assign/copy/move/detach, metatype::generic
-   create/clone) over the 15 object kinds from the empty state; [final init ops] is its last state, [None] after a use of a destroyed object ([Fault]).
+   runs a history of the 30 operations (addref, unref, clone, assignment through conversion,
+   traits init/fini, reference array copy, array clone/clear, detach, reply defer, forced counters,
+   the plot data object rawdata: modify / advance / its stage array shared out / handed in / calls
+   that take no reference, reference<T> set_instance/assign/copy/move/detach, metatype::generic
+   create/clone) over the 16 object kinds from the empty state; [final init ops] is its last state, [None] after a use of a destroyed object ([Fault]).
    All theorems quantify over ALL histories [ops] (induction over the list, no bound). *)
 From MptV Require Import Base.Mem C15.RefcountModel C15.RefcountSpec C15.RefcountCounter C15.RefcountInv
-  C15.RefcountSteps C15.RefcountOps C15.RefcountRun C15.RefcountAssign C15.RefcountRel C15.RefcountFrame
+  C15.RefcountSteps C15.RefcountFr C15.RefcountOps C15.RefcountRun C15.RefcountAssign C15.RefcountRel C15.RefcountFrame
   C15.RefcountSim C15.RefcountRefine.
 Local Open Scope N_scope.
 
@@ -93,7 +94,7 @@ Theorem C15_refinement_preserves_observation :
     (forall t, sobserve ss t = strip (observe s t)) /\ sleaked ss = leaked s.
 Proof. exact (fun s ss RF => conj (observe_ref s ss RF) (sleaked_ref s ss RF)). Qed.
 
-(* STEP refinement, every one of the 26 operations, from EVERY pair of related states (not only reachable
+(* STEP refinement, every one of the 30 operations, from EVERY pair of related states (not only reachable
    ones): the model step does not fault, returns exactly the specification's output and ends in a state
    related to the specification's next state *)
 Theorem C15_step_refines_spec :
@@ -168,11 +169,22 @@ Theorem C15_assign_any_form_releases_old_once_retains_new_once :
   forall s ss op si d,
   Refines s ss -> assign_op op = Some (si, d) ->
   shareable_opt ss (slot s si) = true ->
+  tmismatch (kind_at s) (slot s si) (slot s d) = false ->   (* mpt_array_clone: a typed (stage) buffer is not replaced by an untyped one *)
   guard (hs s) (kind_at s) (held s) op = true ->
   exists s' t, step s op = Ok (s', t) /\ t <> OE /\ Refines s' (sput ss d (slot s si)) /\
     hs s' = set_nth d (slot s si) (hs s) /\
     forall o, (cnt (flat_map o2l (hs s')) o + ind (slot s d) o = cnt (flat_map o2l (hs s)) o + ind (slot s si) o)%nat.
 Proof. exact assign_l. Qed.
+
+(* corollary for the plot data object (mptplot/rawdata_create.c): modify, advance and the calls that take no
+   reference never change what any slot holds — whoever shares the object's stage buffer (an array, another
+   rawdata object, a meta buffer) keeps it; a modify of a shared buffer gives the OBJECT a fresh one (copy on
+   write, [sstep]); the resulting state refines the specification's, so every counter is again the number of
+   handles and the shared buffer lives exactly as long as somebody holds it *)
+Theorem C15_rawdata_modify_keeps_sharers :
+  forall s ss op, Refines s ss -> raw_local op = true ->
+    exists s', step s op = Ok (s', snd (sstep ss op)) /\ Refines s' (fst (sstep ss op)) /\ hs s' = hs s.
+Proof. exact raw_local_l. Qed.
 
 (* the invariant is inductive: from ANY state that satisfies it (not only reachable ones) every
    operation succeeds without fault and re-establishes it with no handle left in a local *)
@@ -285,6 +297,20 @@ Example C15_ex_clone_counted :
      Some (OD, [DDead; DCnt 2; DCnt 1; DDead; DCnt 1])].
 Proof. vm_compute. reflexivity. Qed.
 
+(* the plot data object (rawdata_create.c): advance / modify give it a stage buffer; shared out into an array
+   (count 2) the next modify detaches — the object gets a private copy (count 1), the array keeps the old one
+   (count 1), which dies with the array; a refused modify touches nothing; the last unref releases the copy.
+   Third component: what array slot 6 holds *)
+Example C15_ex_rawdata_copy_on_write :
+  map (fun r => match r with Obs t d h _ => Some (t, d, nth 6 h None) | ObsFault => None end)
+      (fst (mrun init [ONew KRaw 0; ORawAdvance 0; ORawModify 0; ORawGet 0 6; ORawCall 0 true; ORawModify 0;
+                       ORawAdvance 0; OArrClear 6; OUnref 0]%nat))
+  = [Some (OD, [DCnt 1], None); Some (OD, [DCnt 1; DCnt 1], None); Some (OD, [DCnt 1; DCnt 1], None);
+     Some (ORet 1, [DCnt 1; DCnt 2], Some 1%nat); Some (OE, [DCnt 1; DCnt 2], Some 1%nat);
+     Some (OD, [DCnt 1; DCnt 1; DCnt 1], Some 1%nat); Some (OD, [DCnt 1; DCnt 1; DCnt 1], Some 1%nat);
+     Some (ORet 2, [DCnt 1; DDead; DCnt 1], None); Some (OD, [DDead; DDead; DDead], None)].
+Proof. vm_compute. reflexivity. Qed.
+
 (* the hypotheses of the refusal theorem are met by a reachable state (counter forced to the maximum),
    those of the assignment theorem by another one (a counted metatype assigned over a geninfo) *)
 Example C15_ex_refusal_and_assign_states :
@@ -295,6 +321,7 @@ Example C15_ex_refusal_and_assign_states :
       guard (hs s1) (kind_at s1) (held s1) (OConv 0 1)%nat = true /\
       guard (hs s1) (kind_at s1) (held s1) (OAddref 0 1)%nat = true /\
       shareable_opt (abs s2) (slot s2 0%nat) = true /\
+      tmismatch (kind_at s2) (slot s2 0%nat) (slot s2 1%nat) = false /\
       guard (hs s2) (kind_at s2) (held s2) (OConv 0 1)%nat = true
   | _, _ => False
   end.
@@ -315,6 +342,7 @@ Print Assumptions C15_history_refines_spec.
 Print Assumptions C15_destroyed_iff_last_handle_dropped.
 Print Assumptions C15_saturated_share_refused.
 Print Assumptions C15_assign_any_form_releases_old_once_retains_new_once.
+Print Assumptions C15_rawdata_modify_keeps_sharers.
 Print Assumptions C15_spec_observation_agrees.
 Print Assumptions C15_spec_leak_agrees.
 Print Assumptions C15_step_preserves_invariant.
